@@ -467,12 +467,18 @@ def _harnesses(t, runner):
     if kind == "map-select":
         src_m = ("map", [({"t": "string", "v": "a"}, ("int",)), ({"t": "string", "v": "b"}, ("int",))])
         vars, pre = V.shape_vars(src_m, "m")
-        srcs = {"m.a": 0, "m.b": 1, "m['a']": 0, "has(m.a)": True, "has(m.zz)": False, "m.zz": "error"}
+        srcs = {"m.a": 0, "m.b": 1, "m['a']": 0, "has(m.a)": True, "has(m.zz)": False, "m.zz": "error",
+                # entries whose value is null / false / 0 / empty are present: selection yields the value, has() is true
+                "nz.n == null": True, "nz['n'] == null": True, "has(nz.n)": True, "nz.f == false": True, "has(nz.f)": True, "nz.z == 0": True, "has(nz.z)": True,
+                "nz.e == ''": True, "has(nz.e)": True, "{'k': null}.k == null": True, "has({'k': null}.k)": True, "nz.l == []": True, "has(nz.l)": True, "has(nz.missing)": False,
+                "'n' in nz": True, "size(nz) == 5": True}
         progs = {s: common.make_program(s, runner) for s in srcs}
         mv = [z3.Int("m_v0"), z3.Int("m_v1")]
+        S_ = ct.StringType
+        nz = ct.MapType({S_("n"): None, S_("f"): ct.BoolType(False), S_("z"): ct.IntType(0), S_("e"): S_(""), S_("l"): ct.ListType([])})
 
         def run(vals):
-            bd = {"m": V.build(src_m, "m", vals)}
+            bd = {"m": V.build(src_m, "m", vals), "nz": nz}
             obs = []
             for s, exp in srcs.items():
                 kd, r = common.outcome(lambda: progs[s].evaluate(dict(bd)))
